@@ -1,5 +1,6 @@
 """Build whole synthetic ALOS-2 CEOS products from a plain-dict spec (no ceos_alos2 import)."""
 
+import datetime as dt
 import random
 import struct
 
@@ -274,8 +275,11 @@ def leader_presets(params, rng):
     # fraction digits of the decimal-seconds texts (3 = milliseconds ... 6 = microseconds)
     digits = inst.get("frac_digits", 3)
     frac = f"{ms:03d}{inst.get('us', 0):03d}"[:digits]
+    # the scene centre is some minutes after the first orbit point / attitude sample: with an
+    # offset it may lie in the next day or year
+    sc = dt.datetime(year, month, day, hh, mm, ss) + dt.timedelta(milliseconds=p.get("scene_center_offset_ms", 0))
     v["dataset_summary/scene_center_time"] = V.pad(
-        f"{year:04d}{month:02d}{day:02d}{hh:02d}{mm:02d}{ss:02d}{frac}", 32, rng, allow_left=False
+        f"{sc.year:04d}{sc.month:02d}{sc.day:02d}{sc.hour:02d}{sc.minute:02d}{sc.second:02d}{frac}", 32, rng, allow_left=False
     )
     v["platform_position/datetime_of_first_point/date"] = V.pad(
         f"{year:04d} {month:02d} {day:02d}", 12, rng
@@ -290,9 +294,14 @@ def leader_presets(params, rng):
     if p["map_projection"]:
         v["map_projection/0/map_projection_designator"] = V.pad(p["designator"], 32, rng, allow_left=False)
     # attitude point times: the reference instant, then increasing
+    repeat_times = p.get("repeat_attitude_times")
     for i in range(p["n_att"]):
         doy = inst["doy"] if i == 0 else min(366, inst["doy"] + (i // 4))
         ms_i = inst["ms"] if i == 0 else rng.randrange(86_400_000)
+        if repeat_times and i > 0 and i % 2:
+            # two samples with the same time stamp (one slot per sample is all the format says)
+            doy, ms_i = prev
+        prev = (doy, ms_i)
         v[f"attitude/data_points/{i}/time/day_of_year"] = f"{doy:4d}"
         v[f"attitude/data_points/{i}/time/millisecond_of_day"] = f"{ms_i:8d}"
     return v
@@ -466,6 +475,7 @@ def build_image(img, rng, policy="decoy", mode="random"):
     constants = {}
     line_number = rng.randrange(1, 5)
     cfill = Filler(rng, policy, (), mode=mode, enum_cycle=img.get("enum_cycle"), table=table)
+    drift = {}
     for i in range(lines):
         pres = {
             "preamble/record_type": RECORD_TYPE[table],
@@ -474,12 +484,23 @@ def build_image(img, rng, policy="decoy", mode="random"):
         }
         line_number += rng.randrange(1, 4)
         # times: first line carries the reference instant, later lines later the same day
+        year_i, doy_i = inst["year"], inst["doy"]
         if i == 0:
             ms, us = inst["ms"], inst["ms"] * 1000 + inst.get("us", 0)
+        elif img.get("cross_midnight"):
+            # the acquisition runs over midnight UTC: later lines belong to the next day (and, on
+            # the last day of a year, to the next year)
+            total = inst["ms"] + i * (400 + 37 * (i % 5))
+            days, ms = divmod(total, 86_400_000)
+            us = ms * 1000 + rng.randrange(1000)
+            doy_i += days
+            n_days = 366 if year_i % 4 == 0 else 365
+            if doy_i > n_days:
+                year_i, doy_i = year_i + 1, doy_i - n_days
         else:
             ms = min(86_399_999, inst["ms"] + i * rng.randrange(1, 50)) if not img.get("random_times") else rng.randrange(86_400_000)
             us = ms * 1000 + rng.randrange(1000)
-        pres["sensor_acquisition_date"] = {"year": inst["year"], "doy": inst["doy"], "ms": ms}
+        pres["sensor_acquisition_date"] = {"year": year_i, "doy": doy_i, "ms": ms}
         if table == "signal_data_record":
             pres["sensor_acquisition_date_microseconds"] = us
         for name, col in columns.items():
@@ -488,6 +509,17 @@ def build_image(img, rng, policy="decoy", mode="random"):
 
         def line_filler(path, node, width, codec, _i=i):
             top = path.split("/")[0]
+            if img.get("drift") is not None and codec in layout.BIN_FMT and top not in LINE_CONSTANTS \
+                    and leaf_class(path, node) == "value":
+                # slowly varying columns: a large base value plus a small per-line step (what
+                # latitudes, Doppler terms, ranges of neighbouring lines look like)
+                if path not in drift:
+                    drng = random.Random(f"{img['drift']}/{path}")
+                    mx = layout.BIN_MAX[codec]
+                    step = drng.choice([0, 1, 1, 2, 3])
+                    drift[path] = (drng.randrange(mx // 4, mx - step * lines - 1), step)
+                base, step = drift[path]
+                return base + _i * step
             if top in LINE_CONSTANTS and not img.get("vary_constants"):
                 if path not in constants:
                     constants[path] = cfill(path, node, width, codec)
